@@ -143,6 +143,17 @@ func (c03) Generate(tier string, yield func(*engine.Case) bool) {
 			if keep != nil && !keep(c) {
 				return true
 			}
+			if len(c.Data) == 0 {
+				// families with their own runner: the wide literals are taken over as plain programs
+				if len(c.Args) == 3 && c.Args[0] == "wide" {
+					var n int
+					fmt.Sscan(c.Args[2], &n)
+					w := progCase(prefix+"/"+c.Family, c01WideTerm(c.Args[1], n), real.EnvSpec{Rep: "raw"}, c.Key)
+					w.Key = c.Key
+					emit(w)
+				}
+				return ok
+			}
 			cp := *c
 			cp.Family = prefix + "/" + c.Family
 			emit(&cp)
